@@ -2515,6 +2515,8 @@ def roll(a: Array, shift: int, axis: int | None = None) -> Array:
     :param axis: axis along which the array is shifted
     """
     if a.ndim == 0:
+        if axis is not None:
+            raise ValueError("invalid axis")
         return a
 
     if axis is None:
